@@ -1256,6 +1256,51 @@ fn access(seed: u64) -> String {
     "ok".into()
 }
 
+/// `c16 warmroute <n> <w> <h> <type>`: where ONE warm-up request of the real `Repository::warm_up` goes.  `n` = the cold store's own
+/// `needs_warm_up()`, `w` = `RepositoryOptions::warm_up` (warm-up by access), `h` = with a hot store; type index / key / snapshot /
+/// pack.  Observation: the events the two stores saw (`cold:read`, `cold:warm`, `hot:read`, `hot:warm`), `-` = none — compared
+/// with `WarmUp.warmUpRepo (repoBe n w h)` of the Lean model.
+fn warmroute(n: &str, w: &str, h: &str, t: &str) -> String {
+    use rustic_core::repofile::{IndexId, KeyId, PackId, SnapshotId};
+    let flag = |s: &str| match s {
+        "0" => Some(false),
+        "1" => Some(true),
+        _ => None,
+    };
+    let (Some(n), Some(w), Some(h)) = (flag(n), flag(w), flag(h)) else { return "bad-op".into() };
+    let tpe = match t {
+        "index" => FileType::Index,
+        "key" => FileType::Key,
+        "snapshot" => FileType::Snapshot,
+        "pack" => FileType::Pack,
+        _ => return "bad-op".into(),
+    };
+    let cold = MemBackend::named("cold");
+    let hot = MemBackend::named("hot");
+    let id = label_id(7);
+    cold.put_raw(tpe, id, Bytes::from_static(b"0123456789"));
+    hot.put_raw(tpe, id, Bytes::from_static(b"0123456789"));
+    cold.set_cold(n);
+    let bes = RepositoryBackends::new(Arc::new(cold.clone()), h.then(|| Arc::new(hot.clone()) as Arc<dyn WriteBackend>));
+    let Ok(repo) = Repository::new(&RepoHandle::default_opts().warm_up(w), &bes) else { return "err:new".into() };
+    let res = match tpe {
+        FileType::Index => repo.warm_up(std::iter::once(IndexId::from(id))),
+        FileType::Key => repo.warm_up(std::iter::once(KeyId::from(id))),
+        FileType::Snapshot => repo.warm_up(std::iter::once(SnapshotId::from(id))),
+        _ => repo.warm_up(std::iter::once(PackId::from(id))),
+    };
+    if res.is_err() {
+        return "err:warm-up".into();
+    }
+    let mut ev: Vec<&str> = Vec::new();
+    for (be, rd, wm) in [(&cold, "cold:read", "cold:warm"), (&hot, "hot:read", "hot:warm")] {
+        let g = be.inner.lock().unwrap();
+        ev.extend(g.reads.iter().filter(|(t, i, _)| *t == tpe && *i == id).map(|_| rd));
+        ev.extend(g.warm_log.iter().filter(|(t, i)| *t == tpe && *i == id).map(|_| wm));
+    }
+    if ev.is_empty() { "-".into() } else { ev.join("+") }
+}
+
 pub fn exec(t: &[&str]) -> String {
     let t: Vec<String> = t.iter().map(|s| (*s).to_string()).collect();
     guarded(move || match t.iter().map(String::as_str).collect::<Vec<_>>().as_slice() {
@@ -1266,6 +1311,7 @@ pub fn exec(t: &[&str]) -> String {
         ["repo-hist", steps, seed] => seed.parse::<u64>().map_or("bad-op".into(), |s| repo_hist(steps, s, false)),
         ["repo-read-data", seed] => seed.parse::<u64>().map_or("bad-op".into(), |s| repo_level(s, true)),
         ["access", seed] => seed.parse::<u64>().map_or("bad-op".into(), access),
+        ["warmroute", n, w, h, t] => warmroute(n, w, h, t),
         _ => "bad-op".into(),
     })
 }
@@ -1496,9 +1542,9 @@ pub fn generate(thorough: bool, rng: &mut Rng, ops: &mut Vec<String>, stats: &mu
         st.push("b");
         st.push("B");
         for _ in 0..rng.below(3) {
-            st.push(*rng.pick(&["B", "B", "b", "y"]));
+            st.push(*rng.pick(&["B", "B", "B", "y"]));
         }
-        st.push(*rng.pick(&["f", "F", "F"]));
+        st.push(*rng.pick(&["f", "f", "F"]));
         st.push("r");
         for _ in 0..rng.below(3) {
             st.push(*rng.pick(&["B", "F", "r", "r", "p", "i", "x", "k"]));
@@ -1529,6 +1575,17 @@ pub fn generate(thorough: bool, rng: &mut Rng, ops: &mut Vec<String>, stats: &mu
     for _ in 0..n_acc {
         stats.hit("access");
         ops.push(format!("c16 access {}", rng.below(1 << 32)));
+    }
+    // where a warm-up request goes: every combination of the store's own needs_warm_up x opts.warm_up x hot store x file type
+    for n in 0..2 {
+        for w in 0..2 {
+            for h in 0..2 {
+                for t in ["index", "key", "snapshot", "pack"] {
+                    stats.hit("warmroute");
+                    ops.push(format!("c16 warmroute {n} {w} {h} {t}"));
+                }
+            }
+        }
     }
     // DESIGN §7 #15 (known finding): check --read-data on a warmed-up hot/cold repository
     stats.hit("repo-level.read-data");
